@@ -31,6 +31,7 @@ def HybFree : CExpr → Bool
   | .post _ _ _ => false
   | .call _ _ _ _ => false
   | .stmtexpr _ _ _ => false
+  | .seqexpr _ _ _ _ _ => false
 def HybFreeL : List CExpr → List CT → Bool
   | [], _ => true
   | _ :: _, [] => false
@@ -54,6 +55,7 @@ def HybFreeS : CStmt → Bool
   | .skip _ => true
   | .exprstmt _ => false
   | .ret _ => false
+  | .vcall _ _ _ _ => false
 def HybFreeSs : List CStmt → Bool
   | [] => true
   | s :: ss => HybFreeS s && HybFreeSs ss
@@ -132,6 +134,7 @@ def HSameS (env : CEnv) : CStmt → Bool
   | .skip _ => true
   | .exprstmt e => HSame env e
   | .ret e => HSame env e
+  | .vcall _ _ args _ => HSameL env args
 def HSameSs (env : CEnv) : List CStmt → Bool
   | [] => true
   | s :: ss => HSameS env s && HSameSs env ss
@@ -170,6 +173,7 @@ def NoDeadVarlS (env : CEnv) : CStmt → Bool
   | .skip _ => true
   | .exprstmt e => NoDeadVarl env e
   | .ret e => NoDeadVarl env e
+  | .vcall _ _ args _ => NoDeadVarlL env args
 def NoDeadVarlSs (env : CEnv) : List CStmt → Bool
   | [] => true
   | s :: ss => NoDeadVarlS env s && NoDeadVarlSs env ss
